@@ -10,14 +10,16 @@ pub struct Tape {
     pos: usize,
     /// number of draws that ran past the end of a replayed tape
     pub overrun: u64,
+    /// debugging: (bound, value) of every draw
+    pub log: Option<Vec<(u32, u32)>>,
 }
 
 impl Tape {
     pub fn search(seed: u64) -> Self {
-        Tape { rng: Some(Rng::new(seed)), vals: Vec::new(), pos: 0, overrun: 0 }
+        Tape { rng: Some(Rng::new(seed)), vals: Vec::new(), pos: 0, overrun: 0, log: None }
     }
     pub fn replay(vals: Vec<u32>) -> Self {
-        Tape { rng: None, vals, pos: 0, overrun: 0 }
+        Tape { rng: None, vals, pos: 0, overrun: 0, log: None }
     }
     pub fn is_replay(&self) -> bool {
         self.rng.is_none()
@@ -28,6 +30,14 @@ impl Tape {
         if bound <= 1 {
             return 0;
         }
+        let v = self.draw_inner(bound);
+        if let Some(l) = self.log.as_mut() {
+            l.push((bound, v));
+        }
+        v
+    }
+    #[inline]
+    fn draw_inner(&mut self, bound: u32) -> u32 {
         match &mut self.rng {
             Some(rng) => {
                 let v = rng.below(bound as u64) as u32;
